@@ -141,6 +141,7 @@ func (e *Engine) Begin(ctx context.Context, lock bool) (*Transaction, error) {
 
 	// non lock transactions do not need to be managed
 	if !lock {
+		vhook("begin.read", e, nil)
 		return NewTransaction(e.catalog), nil
 	}
 
@@ -159,9 +160,12 @@ func (e *Engine) Begin(ctx context.Context, lock bool) (*Transaction, error) {
 	// acquire token (without lock); use a tomb-aware context so that a shutdown
 	// unblocks the acquisition
 	e.mutex.Unlock()
+	vhook("begin.wait", e, nil)
 	ok = e.token.Acquire(e.tomb.Context(ctx).Done(), time.Minute)
+	vhook("begin.woke", e, nil)
 	e.mutex.Lock()
 	if !ok {
+		vhook("begin.failed", e, nil)
 		if !e.tomb.Alive() {
 			return nil, ErrEngineClosed
 		}
@@ -171,20 +175,25 @@ func (e *Engine) Begin(ctx context.Context, lock bool) (*Transaction, error) {
 		return nil, fmt.Errorf("token acquisition timeout")
 	}
 
+	vhook("begin.acquired", e, nil)
+
 	// engine may have closed while we waited
 	if !e.tomb.Alive() {
+		vhook("begin.release", e, nil)
 		e.token.Release()
 		return nil, ErrEngineClosed
 	}
 
 	// assert transaction
 	if e.txn != nil {
+		vhook("begin.release", e, nil)
 		e.token.Release()
 		return nil, fmt.Errorf("existing transaction")
 	}
 
 	// create transaction
 	e.txn = NewTransaction(e.catalog)
+	vhook("begin.write", e, e.txn)
 
 	return e.txn, nil
 }
@@ -211,13 +220,16 @@ func (e *Engine) Commit(txn *Transaction) error {
 	}
 
 	// ensure token is released
+	defer vhook("commit.released", e, txn)
 	defer e.token.Release()
+	vhook("commit.enter", e, txn)
 
 	// unset transaction
 	e.txn = nil
 
 	// check if dirty
 	if !txn.Dirty() {
+		vhook("commit.clean", e, txn)
 		return nil
 	}
 
@@ -225,13 +237,17 @@ func (e *Engine) Commit(txn *Transaction) error {
 	txn.Clean(e.opts.MinOplogSize, e.opts.MaxOplogSize, e.opts.MinOplogAge, e.opts.MaxOplogAge)
 
 	// write catalog
+	vhook("commit.store", e, txn)
 	err := e.store.Store(txn.Catalog())
 	if err != nil {
+		vhook("commit.storefail", e, txn)
 		return err
 	}
 
 	// set new catalog
+	vhook("commit.publish", e, txn)
 	e.catalog = txn.Catalog()
+	vhook("commit.published", e, txn)
 
 	// broadcast change
 	for stream := range e.streams {
@@ -266,6 +282,7 @@ func (e *Engine) Abort(txn *Transaction) {
 	e.txn = nil
 
 	// release token
+	vhook("abort.release", e, txn)
 	e.token.Release()
 }
 
@@ -364,6 +381,7 @@ func (e *Engine) Watch(handle Handle, pipeline bsonkit.List, resumeAfter, startA
 
 	// register stream
 	e.streams[stream] = struct{}{}
+	vhookStream("watch", stream)
 
 	return stream, nil
 }
@@ -390,6 +408,7 @@ func (e *Engine) Close() {
 	// kill the tomb under the mutex, then release it so that in-flight Begin
 	// calls can re-acquire the mutex and observe the dead tomb
 	e.tomb.Kill(nil)
+	vhook("close.killed", e, nil)
 	e.mutex.Unlock()
 
 	// close each stream under its own mutex so concurrent or subsequent
@@ -406,6 +425,7 @@ func (e *Engine) Close() {
 
 	// await goroutine termination
 	_ = e.tomb.Wait()
+	vhook("close.done", e, nil)
 }
 
 func (e *Engine) expire(interval time.Duration, reporter func(error)) {
